@@ -1881,7 +1881,71 @@ func (r *runner) generate(g *gen.G, cfg Cfg, bg bool, o genOpts) ([]Step, int, M
 		r.counts["traversals"]++
 		return nil, false
 	}
+	// a request straddling the deadline: admitted at a clock just before the promise's timeout, its store round trip done,
+	// answered at a clock at / just after the timeout - for every request kind that looks at the promise
+	straddleScenario := func() (M, bool) {
+		id := g.Pick(gen.ApiPromiseIds)
+		mk := func(k t_api.Kind) (*t_api.Request, string) {
+			nreq++
+			tid := fmt.Sprintf("r%d", nreq)
+			return &t_api.Request{Kind: k, Tags: map[string]string{"id": tid, "name": k.String(), "protocol": "dst"}}, tid
+		}
+		timeout := now + 50 + int64(g.R.Intn(3))*100
+		tags := map[string]string{}
+		if g.R.Intn(3) == 0 {
+			tags["resonate:timeout"] = "true"
+		}
+		rq, tid := mk(t_api.CreatePromise)
+		rq.CreatePromise = &t_api.CreatePromiseRequest{Id: id, Timeout: timeout, Tags: tags, Param: promise.Value{Headers: map[string]string{"h": "1"}, Data: []byte("d")}}
+		if info, pred := do(Step{Op: "submit", Tid: tid, Req: canon.Req(rq)}); info != nil {
+			return info, pred
+		}
+		if info, pred := settle(3, 1); info != nil {
+			return info, pred
+		}
+		var kinds []t_api.Kind
+		for _, k := range []t_api.Kind{t_api.ReadPromise, t_api.CreatePromise, t_api.CompletePromise, t_api.SearchPromises, t_api.CreateCallback, t_api.CreateSubscription} {
+			if hasKind(k) {
+				kinds = append(kinds, k)
+			}
+		}
+		if len(kinds) == 0 || now >= timeout-2 {
+			return nil, false
+		}
+		k := kinds[g.R.Intn(len(kinds))]
+		rq, tid = mk(k)
+		switch k {
+		case t_api.ReadPromise:
+			rq.ReadPromise = &t_api.ReadPromiseRequest{Id: id}
+		case t_api.CreatePromise:
+			rq.CreatePromise = &t_api.CreatePromiseRequest{Id: id, Timeout: timeout + 1000, Strict: g.R.Intn(2) == 0, Tags: map[string]string{}}
+		case t_api.CompletePromise:
+			rq.CompletePromise = &t_api.CompletePromiseRequest{Id: id, State: promise.Resolved, Strict: g.R.Intn(2) == 0, Value: promise.Value{Headers: map[string]string{}, Data: []byte("v")}}
+		case t_api.SearchPromises:
+			rq.SearchPromises = &t_api.SearchPromisesRequest{Id: "*", States: []promise.State{promise.Pending, promise.Resolved, promise.Rejected, promise.Timedout, promise.Canceled}, Tags: map[string]string{}, Limit: 10}
+		case t_api.CreateCallback:
+			rq.CreateCallback = &t_api.CreateCallbackRequest{PromiseId: id, RootPromiseId: "root-" + id, Timeout: timeout + 1000, Recv: []byte(`"default"`)}
+		case t_api.CreateSubscription:
+			rq.CreateSubscription = &t_api.CreateSubscriptionRequest{Id: "strad", PromiseId: id, Timeout: timeout + 1000, Recv: []byte(`"default"`)}
+		}
+		if info, pred := do(Step{Op: "submit", Tid: tid, Req: canon.Req(rq)}); info != nil {
+			return info, pred
+		}
+		now = timeout - 1
+		if info, pred := do(Step{Op: "tick", T: now}); info != nil { // admitted just before the deadline
+			return info, pred
+		}
+		now = timeout + int64(g.R.Intn(2))
+		return settle(5, 0) // its store round trips are answered at / just after the deadline (the clock stays there)
+	}
 	for len(steps) < o.steps {
+		if (monitors["C04"] || monitors["C01"] || monitors["C03"]) && hasKind(t_api.CreatePromise) && g.R.Intn(45) == 0 {
+			if info, pred := straddleScenario(); info != nil {
+				return steps, len(steps) - 1, info, pred
+			}
+			r.counts["straddles"]++
+			continue
+		}
 		if monitors["C14"] && ((hasKind(t_api.SearchPromises) && hasKind(t_api.CreatePromise)) || (hasKind(t_api.SearchSchedules) && hasKind(t_api.CreateSchedule))) && g.R.Intn(40) == 0 {
 			if info, pred := traversalScenario(); info != nil {
 				return steps, len(steps) - 1, info, pred
